@@ -1,12 +1,24 @@
 package main
 
+// symgo: symbolic execution of go-mail's SSA with an SMT solver.
+//
+//	symgo worker  ...   one worker process (jobs on stdin, results on stdout)
+//	symgo explore ...   master: explore one harness function with N workers
+//	symgo check <ID> <quick|thorough>   run all harnesses of a property, replay
+//	                    witnesses natively, write evidence, print verdict lines
+//	symgo replay <file> re-run a recorded witness natively
+//	symgo selftest      translator validation (concrete runs vs native)
+
 import (
+	"bufio"
+	"encoding/json"
 	"flag"
 	"fmt"
-	"go/types"
 	"os"
 	"path/filepath"
-	"time"
+	"sort"
+	"strconv"
+	"strings"
 
 	"golang.org/x/tools/go/packages"
 	"golang.org/x/tools/go/ssa"
@@ -15,59 +27,221 @@ import (
 	interp "symgo"
 )
 
-func main() {
-	dir := flag.String("dir", "/repo", "module dir")
-	pkgpat := flag.String("pkg", ".", "package pattern")
-	harness := flag.String("harness", "", "harness go file to overlay into pkg dir")
-	fnname := flag.String("fn", "", "harness function")
-	maxp := flag.Int("maxpaths", 100000, "")
-	repl := flag.String("replace", "", "virtual=real source file replacement")
-	flag.Parse()
-	t0 := time.Now()
-	cfg := &packages.Config{Mode: packages.LoadAllSyntax, Dir: *dir, Overlay: map[string][]byte{}}
-	if *harness != "" {
-		src, err := os.ReadFile(*harness)
-		if err != nil {
-			panic(err)
-		}
-		pd := *dir
-		if *pkgpat != "." {
-			pd = filepath.Join(*dir, *pkgpat)
-		}
-		cfg.Overlay[filepath.Join(pd, "zz_harness_verif.go")] = src
+const verifRoot = "/verif"
+
+type loadSpec struct {
+	Dir       string            // module dir (/repo)
+	Pkg       string            // package pattern relative to Dir ("." or "./smtp")
+	Files     []string          // harness files (absolute or relative to /verif)
+	Fn        string            // harness entry point
+	Params    map[string]int    // tier parameters
+	Overrides map[string]string // SSA function name -> harness function name
+	TimeoutMS int
+	MaxSteps  int64
+	XCheck    bool
+}
+
+func absVerif(p string) string {
+	if filepath.IsAbs(p) {
+		return p
 	}
-	if *repl != "" {
-		var v, r string
-		for i := 0; i < len(*repl); i++ {
-			if (*repl)[i] == '=' {
-				v, r = (*repl)[:i], (*repl)[i+1:]
+	return filepath.Join(verifRoot, p)
+}
+
+func pkgDir(ls *loadSpec) string {
+	if ls.Pkg == "." || ls.Pkg == "" {
+		return ls.Dir
+	}
+	return filepath.Join(ls.Dir, ls.Pkg)
+}
+
+// pkgName finds the package clause of the target package directory.
+func pkgName(dir string) string {
+	ents, _ := os.ReadDir(dir)
+	for _, e := range ents {
+		n := e.Name()
+		if strings.HasSuffix(n, ".go") && !strings.HasSuffix(n, "_test.go") {
+			b, _ := os.ReadFile(filepath.Join(dir, n))
+			for _, l := range strings.Split(string(b), "\n") {
+				if strings.HasPrefix(l, "package ") {
+					return strings.Fields(l)[1]
+				}
 			}
 		}
-		src, err := os.ReadFile(r)
-		if err != nil {
-			panic(err)
-		}
-		cfg.Overlay[v] = src
 	}
-	pkgs, err := packages.Load(cfg, *pkgpat)
+	panic("no package clause in " + dir)
+}
+
+// overlayFiles returns virtual path -> contents for the harness and sv files.
+func overlayFiles(ls *loadSpec) map[string][]byte {
+	ov := map[string][]byte{}
+	pd := pkgDir(ls)
+	name := pkgName(pd)
+	tmpl, err := os.ReadFile(filepath.Join(verifRoot, "harness", "sv.go.tmpl"))
 	if err != nil {
 		panic(err)
 	}
-	if packages.PrintErrors(pkgs) > 0 {
-		os.Exit(2)
+	ov[filepath.Join(pd, "zz_verif_sv.go")] = []byte(strings.Replace(string(tmpl), "PKGNAME", name, 1))
+	for _, f := range ls.Files {
+		src, err := os.ReadFile(absVerif(f))
+		if err != nil {
+			panic(err)
+		}
+		s := string(src)
+		// harness files are written as "package PKGNAME" or with the real name
+		s = strings.Replace(s, "package PKGNAME", "package "+name, 1)
+		base := strings.TrimSuffix(filepath.Base(f), ".go")
+		ov[filepath.Join(pd, "zz_verif_"+base+".go")] = []byte(s)
 	}
-	prog, spkgs := ssautil.AllPackages(pkgs, ssa.InstantiateGenerics)
+	return ov
+}
+
+func load(ls *loadSpec) (*ssa.Package, *ssa.Function) {
+	cfg := &packages.Config{Mode: packages.LoadAllSyntax, Dir: ls.Dir, Overlay: overlayFiles(ls),
+		Env: append(os.Environ(), "GOFLAGS=-mod=mod", "GOPROXY=off", "GOSUMDB=off", "GOTOOLCHAIN=local")}
+	pat := ls.Pkg
+	if pat == "" {
+		pat = "."
+	}
+	pkgs, err := packages.Load(cfg, pat)
+	if err != nil {
+		fatal("load: %v", err)
+	}
+	if packages.PrintErrors(pkgs) > 0 {
+		fatal("load: package errors")
+	}
+	_, spkgs := ssautil.AllPackages(pkgs, ssa.InstantiateGenerics)
 	mainpkg := spkgs[0]
 	mainpkg.Build()
-	fmt.Fprintf(os.Stderr, "load+build: %v\n", time.Since(t0))
-	_ = prog
-	fn := mainpkg.Func(*fnname)
+	fn := mainpkg.Func(ls.Fn)
 	if fn == nil {
-		panic("no harness fn " + *fnname)
+		fatal("no harness function %s", ls.Fn)
 	}
-	rep := interp.Explore(mainpkg, fn, &types.StdSizes{WordSize: 8, MaxAlign: 8}, *maxp)
-	for _, m := range rep.Msgs {
-		fmt.Println(m)
+	for target, h := range ls.Overrides {
+		hf := mainpkg.Func(h)
+		if hf == nil {
+			fatal("override %s: no harness function %s", target, h)
+		}
+		interp.RegisterOverride(target, hf)
 	}
-	fmt.Printf("paths=%d violations=%d aborted=%d queries=%d solver=%v wall=%v steps=%d\n", rep.Paths, rep.Violations, rep.Aborted, rep.Queries, rep.SolverTime, rep.Wall, rep.Steps)
+	return mainpkg, fn
+}
+
+func fatal(f string, a ...interface{}) {
+	fmt.Fprintf(os.Stderr, "symgo: "+f+"\n", a...)
+	os.Exit(2)
+}
+
+func parseKV(s string) map[string]string {
+	m := map[string]string{}
+	if s == "" {
+		return m
+	}
+	for _, kv := range strings.Split(s, ",") {
+		i := strings.IndexByte(kv, '=')
+		if i < 0 {
+			fatal("bad k=v: %s", kv)
+		}
+		m[kv[:i]] = kv[i+1:]
+	}
+	return m
+}
+
+func loadFlags(fs *flag.FlagSet) func() *loadSpec {
+	dir := fs.String("dir", "/repo", "module dir")
+	pkg := fs.String("pkg", ".", "package (relative)")
+	files := fs.String("files", "", "comma separated harness files")
+	fn := fs.String("fn", "", "harness function")
+	params := fs.String("params", "", "k=v,... integer parameters")
+	ovr := fs.String("override", "", "ssaFunc=harnessFunc,...")
+	to := fs.Int("timeout", 20000, "solver timeout per query (ms)")
+	ms := fs.Int64("maxsteps", 20000000, "instruction budget per path")
+	xc := fs.Bool("xcheck", false, "record assertion queries for cross-checking")
+	return func() *loadSpec {
+		ls := &loadSpec{Dir: *dir, Pkg: *pkg, Fn: *fn, TimeoutMS: *to, MaxSteps: *ms, XCheck: *xc,
+			Params: map[string]int{}, Overrides: parseKV(*ovr)}
+		if *files != "" {
+			ls.Files = strings.Split(*files, ",")
+		}
+		for k, v := range parseKV(*params) {
+			n, err := strconv.Atoi(v)
+			if err != nil {
+				fatal("param %s: %v", k, err)
+			}
+			ls.Params[k] = n
+		}
+		return ls
+	}
+}
+
+func (ls *loadSpec) args() []string {
+	var ps, os_ []string
+	for k, v := range ls.Params {
+		ps = append(ps, fmt.Sprintf("%s=%d", k, v))
+	}
+	sort.Strings(ps)
+	for k, v := range ls.Overrides {
+		os_ = append(os_, k+"="+v)
+	}
+	sort.Strings(os_)
+	a := []string{"-dir", ls.Dir, "-pkg", ls.Pkg, "-files", strings.Join(ls.Files, ","), "-fn", ls.Fn,
+		"-params", strings.Join(ps, ","), "-override", strings.Join(os_, ","),
+		"-timeout", strconv.Itoa(ls.TimeoutMS), "-maxsteps", strconv.FormatInt(ls.MaxSteps, 10)}
+	if ls.XCheck {
+		a = append(a, "-xcheck")
+	}
+	return a
+}
+
+func workerMain(args []string) {
+	fs := flag.NewFlagSet("worker", flag.ExitOnError)
+	get := loadFlags(fs)
+	fs.Parse(args)
+	ls := get()
+	mainpkg, fn := load(ls)
+	w := interp.NewWorker(mainpkg, fn, ls.Params, ls.TimeoutMS, ls.MaxSteps, ls.XCheck)
+	defer w.Close()
+	out := bufio.NewWriter(os.Stdout)
+	enc := json.NewEncoder(out)
+	fmt.Fprintln(out, `{"ready":true}`)
+	out.Flush()
+	in := bufio.NewReaderSize(os.Stdin, 1<<20)
+	for {
+		line, err := in.ReadBytes('\n')
+		if len(line) > 0 {
+			var job interp.Job
+			if e := json.Unmarshal(line, &job); e != nil {
+				fatal("bad job: %v", e)
+			}
+			if job.Quit {
+				return
+			}
+			res := w.RunPath(job)
+			enc.Encode(res)
+			out.Flush()
+		}
+		if err != nil {
+			return
+		}
+	}
+}
+
+func main() {
+	if len(os.Args) < 2 {
+		fatal("usage: symgo worker|explore|check|replay|selftest ...")
+	}
+	switch os.Args[1] {
+	case "worker":
+		workerMain(os.Args[2:])
+	case "explore":
+		exploreMain(os.Args[2:])
+	case "check":
+		checkMain(os.Args[2:])
+	case "replay":
+		replayMain(os.Args[2:])
+	case "selftest":
+		selftestMain(os.Args[2:])
+	default:
+		fatal("unknown subcommand %s", os.Args[1])
+	}
 }
